@@ -29,4 +29,9 @@ CHECKS = {
         "note": "Trusted: TLC; MaxFetchSizeBytes lowered to 4096 so that size classes up to 5000 bytes stand for over-limit documents; requests up to ~3000 IDs (not 100k); hints are always the right fraction. The pinned tree violated the property in two ways (both repaired by fix: commits, see known_findings.json).",
         "technique": "TLA+ reference + state-machine model of the chunk loop (invariants and liveness) checked by TLC, cases replayed through the real Fetch handler",
     },
+    "C05": {
+        "text": "MultiFrac.tla transcribes the iterative multi-fraction search (prepareFracs, Shift chunks, per-fraction top-limit, MergeQPRs, calcEnsuredIDsCount, limit shrinking) and the proxy's shard merge and pagination; TLC proves the transcription equal to the single-fraction reference for every layout of the exhaustive scope and every tie order of the fraction sort, and on random two-shard layouts with replicated documents; every state is replayed on real fractions (real Searcher) and on real stores behind the real proxy ingestor.",
+        "note": "Trusted: TLC; scope 4 IDs x <=3 fractions (store), 5 IDs x 2 shards x <=2 fractions (proxy, sampled); match-all query; totals compared only without cross-shard duplicates; histogram/aggregation equality across fractions is covered by C06's partitions, not across shards.",
+        "technique": "TLA+ transcription of the search loop proved equal to a reference by TLC (exhaustive + -simulate), cases replayed on real fractions/stores/proxy",
+    },
 }
